@@ -465,3 +465,96 @@ def subs_world(args, scratch):
     out['sig'] = ('subs:%s' % probs[0][0]) if probs else None
     out['stats'] = stats
     return out
+
+
+# ------------------------------------------------------------------------------------------
+# C16: histories
+# ------------------------------------------------------------------------------------------
+STAGE_INPUTS = {
+    'test_all': [],
+    'fisher': ['negloglike_comp%d.dat'],
+    'match': ['negloglike_comp%d.dat', 'derivs_comp%d.dat'],
+    'combine': ['codelen_matches_comp%d.dat'],
+}
+STAGE_ORDER = ['test_all', 'fisher', 'match', 'combine']
+
+
+def history_world(args, scratch):
+    """Run the history segments (each a world on the same scratch, new processes per segment), the
+    last op being the observed call; then compare what the observed call wrote with a fresh world."""
+    import numpy as np
+    os.makedirs(scratch, exist_ok=True)
+    H = scratch + '/h'
+    os.makedirs(H)
+    make_farm(H, args.get('canary'), args.get('repo'))
+    for dd, spec in (args.get('data') or {}).items():
+        os.makedirs(H + '/' + dd, exist_ok=True)
+        np.savetxt(H + '/' + dd + '/' + spec['file'], make_data(spec['cls'], int(spec['seed']), int(spec['npts'])), fmt='%.6f')
+    obs = args['observed']
+    out = dict(segments=[], steps=0, digest='', rdigest='', nshared=0, nfs=0, nmpi=0, choices=[], coins=[], violation=None, diverged=None)
+    last = None
+    import hashlib
+    dg = hashlib.sha256()
+    for si, seg in enumerate(args['segments']):
+        a = dict(args, P=seg['P'], seed=int(args.get('seed', 0)) + si, script=None)
+        res = run_world(world_spec(a, seg['program']), H)
+        last = res
+        out['steps'] += res['steps']
+        out['nfs'] += res['nfs']
+        out['nmpi'] += res['nmpi']
+        dg.update(res['digest'].encode())
+        out['segments'].append(dict(P=seg['P'], steps=res['steps'], ops=len(seg['program'])))
+        if res['violation'] is not None:
+            v = dict(res['violation'])
+            v['sig'] = 'history-run-failed:' + v['sig']
+            v['segment'] = si
+            out['violation'] = v
+            break
+    out['digest'] = dg.hexdigest()
+    out['rdigest'] = last['rdigest'] if last else ''
+    out['P'] = args['segments'][-1]['P']
+    out['ranks'] = []
+    probs = []
+    if out['violation'] is None:
+        comp = int(obs['compl'])
+        if obs['kind'] == 'gen':
+            d = libdir(H, obs['runname'], comp)
+            hs = file_hashes(d)
+            out['hashes'] = hs
+            ref = args.get('ref_hashes') or {}
+            bad = sorted(f for f, h in ref.items() if hs.get(f) != h)
+            if bad:
+                probs.append(('gen', bad[0], bad))
+        else:
+            F = scratch + '/f'
+            os.makedirs(F)
+            make_farm(F, args.get('canary'), args.get('repo'))
+            like = dict(obs['like'])
+            shutil.copytree(H + '/snap/lib/' + obs['runname'], libdir(F, obs['runname']))
+            if like['cls'] in ('Gauss', 'Poisson'):
+                os.makedirs(F + '/' + like['data_dir'])
+                shutil.copy(H + '/' + like['data_dir'] + '/' + like['data_file'], F + '/' + like['data_dir'] + '/' + like['data_file'])
+            od_h, _ = like_paths(H, like)
+            od_f, td_f = like_paths(F, like)
+            ins = [f % comp for f in STAGE_INPUTS[obs['stage']]]
+            if ins:
+                os.makedirs(od_f)
+                for f in ins:
+                    shutil.copy(H + '/snap/in/' + f, od_f + '/' + f)
+            lk = dict(like, name='L')
+            kw = dict(stage=obs['stage'], comp=comp, like='L')
+            kw.update(obs.get('kw') or {})
+            prog = [['like', lk], ['npseed', dict(seed=int(obs['npseed']))], ['fit', kw]]
+            a = dict(args, P=obs['P'], seed=int(args.get('seed', 0)) + 1000, script=None, policy={'kind': 'lowest'})
+            res2 = run_world(world_spec(a, prog), F)
+            if res2['violation'] is not None:
+                probs.append(('fresh-run-failed', res2['violation']['sig']))
+            else:
+                h1, h2 = file_hashes(od_h), file_hashes(od_f)
+                out['hashes'] = h1
+                bad = sorted(f % comp for f in STAGE_FILES[obs['stage']] if h1.get(f % comp) != h2.get(f % comp))
+                if bad:
+                    probs.append(('fit:' + obs['stage'], bad[0], bad))
+    out['probs'] = [list(map(str, p)) for p in probs]
+    out['sig'] = ('history-dep:%s:%s' % (probs[0][0], probs[0][1])) if probs else None
+    return out
